@@ -111,7 +111,8 @@ class Check:
             self.seed = int(os.environ.get("VERIF_SEED", "0"))
         except ValueError:
             self.seed = 0
-        self.t0 = time.time()
+        self.t0 = time.time()          # budgets count from here; reset after every build/compile step
+        self.t_start = self.t0         # wall_s counts from here
         self.known = Known(pid)
         self.violations = []        # dicts: sig, detail, replay
         self.coverage = {}
@@ -126,7 +127,7 @@ class Check:
 
     # -- time ---------------------------------------------------------------
     def elapsed(self):
-        return time.time() - self.t0
+        return time.time() - self.t_start
 
     def budget(self, quick, thorough):
         if self.args.budget is not None:
@@ -136,13 +137,17 @@ class Check:
     # -- build --------------------------------------------------------------
     def build(self, variant="asan"):
         try:
-            return build_variant(variant)
+            r = build_variant(variant)
+            self.t0 = time.time()      # exploration budgets do not include (re)building libocca
+            return r
         except SystemExit as e:
             self.harness_error("libocca build failed for variant %s: %s" % (variant, e))
 
     def compile(self, src, name, variant="asan", **kw):
         try:
-            return compile_harness(src, os.path.join(self.bindir, name), variant, **kw)
+            r = compile_harness(src, os.path.join(self.bindir, name), variant, **kw)
+            self.t0 = time.time()      # ... nor compiling the harness
+            return r
         except HarnessError as e:
             self.harness_error(str(e))
 
